@@ -252,6 +252,7 @@ class DocGen(object):
 # ---------------------------------------------------------------------------
 # expression generator
 # ---------------------------------------------------------------------------
+SAME_PRIORITY_UNIONS = [False, 0]   # [enabled, times applied]
 ELEM_TESTS = ['a', 'b', 'c', 'd', '*', '*', 'a', 'b', 'p:a', 'p:*', 'd:b', 'd:*']
 OTHER_TESTS = ['node()', 'text()', 'comment()', 'processing-instruction()', "processing-instruction('t')"]
 ATTR_TESTS = ['@k', '@n', '@*', '@k', '@p:k', '@id', '@x']
@@ -535,7 +536,22 @@ class XG(object):
         else:
             p = r.choice(ELEM_TESTS) + '/' + r.choice(ELEM_TESTS) + '/' + r.choice(ELEM_TESTS)
         if r.random() < 0.12:
-            p += ' | ' + r.choice(ELEM_TESTS + ['text()', '@k'] if allow_attr else ELEM_TESTS)
+            alt = r.choice(ELEM_TESTS + ['text()', '@k'] if allow_attr else ELEM_TESTS)
+            if SAME_PRIORITY_UNIONS[0]:
+                # by-construction exclusion of a known finding about unions whose alternatives have different default priorities
+                # (set by the caller): keep the alternative only if its default priority equals that of the first alternative
+                try:
+                    pa = rx.pattern_alternatives(rx.parse_pattern(p))
+                    pb = rx.pattern_alternatives(rx.parse_pattern(alt))
+                    if len({q for _, q in pa + pb}) > 1:
+                        same = [t for t in (ELEM_TESTS + ['text()', '@k'] if allow_attr else ELEM_TESTS)
+                                if rx.pattern_alternatives(rx.parse_pattern(t))[0][1] == pa[0][1]]
+                        SAME_PRIORITY_UNIONS[1] += 1
+                        alt = r.choice(same) if same else None
+                except Exception:
+                    alt = None
+            if alt is not None:
+                p += ' | ' + alt
         return p
 
 
